@@ -557,6 +557,7 @@ package ctfe
 //@ loop 1 invariant len(chain) == rangeindex + 1 && (forall j int :: 0 <= j && j <= rangeindex ==> chain[j] != nil)
 //@ ensures [caller-view] result1 == nil ==> len(result0) >= 1 && (forall j int :: 0 <= j && j < len(result0) ==> result0[j] != nil)
 //@ ensures [admitted-path-is-a-verified-path-in-submitted-order] result1 == nil ==> vf.called && vf.res1 == nil && ce.called && ce.res && result0 == ce.verifiedChain
+//@ ensures [a-verified-path-in-submitted-order-is-admitted] vf.called && vf.res1 == nil && ce.called && ce.res ==> result1 == nil
 //@ ensures [window-start-inclusive] o.notAfterStart != nil && b1.called && b1.res ==> result1 != nil && !vf.called
 //@ ensures [window-limit-exclusive] o.notAfterLimit != nil && b2.called && !b2.res ==> result1 != nil && !vf.called
 //@ at b1 assert [leaf-notafter-vs-window-start] b1.t == chain[0].NotAfter && b1.u == *o.notAfterStart
